@@ -114,7 +114,7 @@ func (r *rec) logLocked(e Ev) {
 		r.closed[c] = true
 	case "Invoke":
 		r.invoked[q] = true
-	case "Write", "WriteFail":
+	case "Write", "WriteFail", "PartialWrite":
 		r.done[q] = true
 	case "ServeReturn":
 		r.returned = true
@@ -272,10 +272,14 @@ type sconn struct {
 	armed   bool
 	expired bool
 	dribble bool
+	wmu     sync.Mutex // writers are serialized like on a real connection
+	stalled bool       // the client has stopped reading
+	warmed  bool       // the server has set a write deadline
 	// read without conn.mu by wait predicates
 	closed   atomic.Bool
 	consumed atomic.Int64
 	blocked  atomic.Bool // a Read is parked waiting for bytes
+	wblocked atomic.Bool // a Write is parked because the client is stalled
 	cliEOF   bool
 	part     []byte // rest of a frame delivered in part
 	partQ    int
@@ -316,9 +320,24 @@ func (c *sconn) Read(p []byte) (int, error) {
 }
 
 func (c *sconn) Write(b []byte) (int, error) {
+	c.wmu.Lock()
+	defer c.wmu.Unlock()
 	c.mu.Lock()
 	defer c.mu.Unlock()
 	q, whole := c.s.classifyFrame(b)
+	for c.stalled && !c.closed.Load() {
+		if c.warmed && whole && q != 0 && len(b) > 1 {
+			// The client does not read and the server has armed a write deadline: it passes (virtual time is free to
+			// run while the client is stalled) and the write returns after a part of the frame.
+			n := 1 + c.s.rng2.Intn(len(b)-1)
+			c.s.rec.log(Ev{"ev": "PartialWrite", "q": q, "c": c.c, "n": n, "len": len(b)})
+			return n, timeoutErr{}
+		}
+		c.wblocked.Store(true)
+		c.s.rec.poke()
+		c.cond.Wait()
+		c.wblocked.Store(false)
+	}
 	if c.closed.Load() {
 		if whole && q != 0 {
 			c.s.rec.log(Ev{"ev": "WriteFail", "q": q, "c": c.c})
@@ -334,6 +353,20 @@ func (c *sconn) Write(b []byte) (int, error) {
 	c.s.h.mu.Unlock()
 	c.s.rec.log(Ev{"ev": "Write", "q": q, "c": c.c, "ok": ok, "n": len(b)})
 	return len(b), nil
+}
+
+func (c *sconn) setStall(v bool) {
+	c.mu.Lock()
+	if c.stalled != v {
+		if v {
+			c.s.rec.log(Ev{"ev": "Stall", "c": c.c})
+		} else {
+			c.s.rec.log(Ev{"ev": "Unstall", "c": c.c})
+		}
+		c.stalled = v
+		c.cond.Broadcast()
+	}
+	c.mu.Unlock()
 }
 
 func (c *sconn) Close() error {
@@ -363,8 +396,20 @@ func (c *sconn) SetReadDeadline(t time.Time) error {
 	c.s.rec.log(Ev{"ev": "Arm", "c": c.c, "cls": c.s.classify(d), "d_ms": d.Milliseconds()})
 	return nil
 }
-func (c *sconn) SetDeadline(t time.Time) error      { return c.SetReadDeadline(t) }
-func (c *sconn) SetWriteDeadline(t time.Time) error { return nil }
+func (c *sconn) SetDeadline(t time.Time) error {
+	c.SetWriteDeadline(t)
+	return c.SetReadDeadline(t)
+}
+func (c *sconn) SetWriteDeadline(t time.Time) error {
+	c.mu.Lock()
+	defer c.mu.Unlock()
+	if c.closed.Load() {
+		return net.ErrClosed
+	}
+	c.warmed = !t.IsZero()
+	c.cond.Broadcast()
+	return nil
+}
 func (c *sconn) LocalAddr() net.Addr                { return &net.TCPAddr{IP: net.IPv4(127, 0, 0, 1), Port: 53} }
 func (c *sconn) RemoteAddr() net.Addr {
 	return &net.TCPAddr{IP: net.IP{127, 0, 0, byte(10 + c.c)}, Port: 40000 + c.c}
@@ -412,6 +457,13 @@ func (c *sconn) fire(onTrack bool) {
 	c.cond.Broadcast()
 }
 
+type lockedRand struct {
+	mu sync.Mutex
+	r  *rand.Rand
+}
+
+func (l *lockedRand) Intn(n int) int { l.mu.Lock(); defer l.mu.Unlock(); return l.r.Intn(n) }
+
 type chanListener struct {
 	s      *script
 	ch     chan *sconn
@@ -439,6 +491,7 @@ type script struct {
 	udp     bool
 	beh     *Beh
 	rng     *rand.Rand
+	rng2    *lockedRand // used from server goroutines
 	rec     *rec
 	h       *gateHandler
 	steered bool
@@ -777,6 +830,16 @@ func (s *script) stepTCP(st Step) bool {
 		sc.cliEOF = true
 		sc.halfClose()
 		return true
+	case "Stall", "Unstall":
+		if sc == nil {
+			s.fail(st.A + " impossible")
+			return true
+		}
+		sc.setStall(st.A == "Stall")
+		return true
+	case "PartialWrite":
+		s.fail("diverged: schedule of a server with write deadlines")
+		return true
 	case "TimerFire":
 		if sc == nil {
 			s.fail("TimerFire impossible")
@@ -894,12 +957,15 @@ func (s *script) windDownTCP() {
 	if !quiet {
 		quiet = !s.observeContexts()
 	}
-	s.releaseAll()
 	var cs []int
 	for c := range s.conns {
 		cs = append(cs, c)
 	}
 	sort.Ints(cs)
+	for _, c := range cs {
+		s.conns[c].setStall(false)
+	}
+	s.releaseAll()
 	for _, c := range cs {
 		if sc := s.conns[c]; !sc.cliEOF {
 			sc.cliEOF = true
@@ -1183,7 +1249,7 @@ func (s *script) windDownUDP() {
 
 func runScript(kind string, idx int, b Beh, seed int64) Out {
 	t0 := time.Now()
-	s := &script{idx: idx, udp: kind == "udp", beh: &b, rng: rand.New(rand.NewSource(seed)), rec: newRec(), steered: true}
+	s := &script{idx: idx, udp: kind == "udp", beh: &b, rng: rand.New(rand.NewSource(seed)), rng2: &lockedRand{r: rand.New(rand.NewSource(seed ^ 0x5eed))}, rec: newRec(), steered: true}
 	s.h = &gateHandler{rec: s.rec, udp: s.udp, byID: map[uint16]int{}, sent: map[int]*dns.Msg{}, addr: map[int]netip.Addr{},
 		conn: map[netip.Addr]int{}, call: map[int]*call{}, exp: map[int][]byte{}, rng: s.rng}
 	if s.udp {
